@@ -413,3 +413,41 @@ B('c03-guard-wrapper', 'C03', edits=[
   (FUN, "def _push(arr: list, v: Any):\n    _check_array_size(arr)\n    return arr.append(v)", "def _guarded(arr):\n    _check_array_size(arr)\n    return arr\n\n\ndef _push(arr: list, v: Any):\n    return _guarded(arr).append(v)")])
 B('c03-guard-not-lt', 'C03', FUN, "    if len(arr) >= MAX_ARRAY_SIZE:", "    if not len(arr) < MAX_ARRAY_SIZE:")
 B('c03-guard-literal', 'C03', FUN, "    if len(arr) >= MAX_ARRAY_SIZE:", "    if len(arr) > 9999:")
+
+# =============================================================================== C04
+M('c04-power-native', 'C04', 'C04.R1', AST, "            return Decimal(op1) ** Decimal(op2)", "            return op1 ** op2")
+M('c04-times-left-uncast', 'C04', 'C04.R1', AST, "            return Decimal(op1) * Decimal(op2)", "            return op1 * Decimal(op2)")
+M('c04-times-no-guard', 'C04', 'C04.R1', AST,
+  "            if not isinstance(op1, NUMERIC_TYPES) or not isinstance(op2, NUMERIC_TYPES):\n                raise ParserError(f'Can\\'t multiply non-numbers')\n\n", "")
+M('c04-times-guard-one-side', 'C04', 'C04.R1', AST, "            if not isinstance(op1, NUMERIC_TYPES) or not isinstance(op2, NUMERIC_TYPES):", "            if not isinstance(op1, NUMERIC_TYPES):")
+M('c04-numeric-types-with-str', 'C04', 'C04.R1', AST, "NUMERIC_TYPES = (Decimal_, int, float)", "NUMERIC_TYPES = (Decimal_, int, float, str)")
+M('c04-new-pow-builtin', 'C04', 'C04.R1', FUN, "    'abs': lambda v: Decimal(abs(v)),", "    'abs': lambda v: Decimal(abs(v)),\n    'pow': lambda a, b: a ** b,")
+M('c04-new-shift-op', 'C04', 'C04.R1', AST, "        elif self.op == '/':\n            return op1 / op2\n", "        elif self.op == '/':\n            return op1 / op2\n        elif self.op == '<<':\n            return op1 << op2\n")
+M('c04-context-widened', 'C04', 'C04.R3', 'smartquery/custom_types.py', "from decimal import Decimal as Decimal_\n", "import decimal\nfrom decimal import Decimal as Decimal_\n\ndecimal.getcontext().prec = 1000\n")
+M('c04-abs-via-int', 'C04', 'C04.R2', FUN, "    'abs': lambda v: Decimal(abs(v)),", "    'abs': lambda v: Decimal(abs(int(v))),")
+M('c04-shortop-power', 'C04', 'C04.R1', AST, "            elif self.op == '/=':\n                state.names[self.name] /= value\n", "            elif self.op == '/=':\n                state.names[self.name] /= value\n            elif self.op == '**=':\n                state.names[self.name] **= value\n")
+
+B('c04-decimal-helper', 'C04', edits=[
+  (AST, "NUMERIC_TYPES = (Decimal_, int, float)\n", "NUMERIC_TYPES = (Decimal_, int, float)\n\n\ndef _dec(v):\n    return Decimal(v)\n"),
+  (AST, "            return Decimal(op1) ** Decimal(op2)", "            return _dec(op1) ** _dec(op2)")])
+B('c04-numeric-types-renamed', 'C04', edits=[
+  (AST, "NUMERIC_TYPES = (Decimal_, int, float)", "NUMBERS = (Decimal_, int, float)"),
+  (AST, "            if not isinstance(op1, NUMERIC_TYPES) or not isinstance(op2, NUMERIC_TYPES):", "            if not isinstance(op1, NUMBERS) or not isinstance(op2, NUMBERS):")])
+B('c04-guard-split', 'C04', AST, "            if not isinstance(op1, NUMERIC_TYPES) or not isinstance(op2, NUMERIC_TYPES):\n                raise ParserError(f'Can\\'t multiply non-numbers')\n",
+  "            if not isinstance(op1, NUMERIC_TYPES):\n                raise ParserError(f'Can\\'t multiply non-numbers')\n            if not isinstance(op2, NUMERIC_TYPES):\n                raise ParserError(f'Can\\'t multiply non-numbers')\n")
+
+# =============================================================================== C08
+M('c08-literal-via-float', 'C08', 'C08.R1', LEX, "    t.value = Decimal(t.value)", "    t.value = Decimal(float(t.value))")
+M('c08-literal-truncated', 'C08', 'C08.R1', LEX, "    t.value = Decimal(t.value)", "    t.value = Decimal(t.value[:18])")
+M('c08-literal-native-float', 'C08', 'C08.R1', LEX, "    t.value = Decimal(t.value)", "    t.value = float(t.value)")
+M('c08-round-via-float', 'C08', 'C08.R2', FUN, "Decimal(str(round(v, int(nd) if nd is not None else None)))", "Decimal(str(round(float(v), int(nd) if nd is not None else None)))")
+M('c08-divide-via-float', 'C08', 'C08.R2', AST, "            return op1 / op2", "            return Decimal(float(op1) / float(op2))")
+M('c08-sum-fsum', 'C08', 'C08.R2', FUN, "        return sum(value)", "        return Decimal(math.fsum(value))")
+M('c08-abs-fabs', 'C08', 'C08.R2', FUN, "    'abs': lambda v: Decimal(abs(v)),", "    'abs': lambda v: Decimal(math.fabs(v)),")
+M('c08-plus-epsilon', 'C08', 'C08.R2', AST, "            return op1 - op2", "            return op1 - op2 + 0.0")
+M('c08-context-rounding', 'C08', 'C08.R3', 'smartquery/custom_types.py', "from decimal import Decimal as Decimal_\n",
+  "import decimal\nfrom decimal import Decimal as Decimal_\n\ndecimal.getcontext().rounding = decimal.ROUND_DOWN\n")
+M('c08-compare-via-float', 'C08', 'C08.R2', AST, "            return op1 < op2", "            return float(op1) < float(op2)")
+
+B('c08-stdlib-decimal', 'C08', LEX, "    t.value = Decimal(t.value)", "    text = t.value\n    t.value = Decimal(text)")
+B('c08-floor-via-str', 'C08', FUN, "    'floor': lambda *args: Decimal(str(math.floor(*args))),", "    'floor': lambda v: Decimal(math.floor(v)),")
